@@ -513,6 +513,7 @@ inductive EnumParseError where
   | catchAllAlternatives   -- "Catch all cannot have alternatives"
   | twoCatchAll            -- "Only one catch all variant is allowed"
   | twoDefault             -- "Only one default variant is allowed"
+  | altNotNumber           -- "Alternatives must be numbers" (help.rs variant_alternatives: only `Lit::Int` elements, so `-1` is refused)
   deriving Repr, DecidableEq
 
 /-- parse_enum.rs `VariantMeta`; `name` = index of the declaring variant (alternatives share it). -/
@@ -550,7 +551,9 @@ def parseVariants : List VariantDecl → Nat → Int → Option Nat → Option N
   | [], _, _, ca, df => .ok ([], ca, df)
   | v :: rest, idx, accum, ca, df =>
     let disc : Int := variantDiscriminant v.disc accum
-    if v.catchAll ∧ v.alternatives ≠ [] then .error .catchAllAlternatives
+    -- `variant_alternatives(&variant.attrs)?` runs first: every element must be an integer literal; `-n` is a unary expression
+    if v.alternatives.any (· < 0) then .error .altNotNumber
+    else if v.catchAll ∧ v.alternatives ≠ [] then .error .catchAllAlternatives
     else if v.catchAll ∧ ca.isSome then .error .twoCatchAll
     else if v.default ∧ df.isSome then .error .twoDefault
     else
